@@ -360,4 +360,61 @@ theorem written_ne_zero_of_addNew (lz : Bool) (st : PState) (d : List Nat) :
     (addNew lz st d).1.written ≠ 0 := by
   unfold addNew; simp only []; split <;> simp
 
+theorem entryAt_eq (packs : List (List (List Nat))) (p e : Nat) :
+    entryAt packs p e = (packs[p]?).bind (·[e]?) := by
+  unfold entryAt; cases packs[p]? <;> rfl
+
+
+/-- `Props.C02.packs_addressing` with the run and the packs named. -/
+theorem packs_addressing_aux (lz : Bool) (ds : List (List Nat)) (r : PState × List Nat)
+    (hr : assignAll lz PState.init ds = r) (packs : List (List (List Nat))) (hpk : finish lz r.1 = packs) :
+    Filled 50 packs ∧
+    (∀ p, p + 1 < packs.length → ∃ pk, packs[p]? = some pk ∧ pk.length = 50) ∧
+    ∀ j (hj : j < ds.length),
+      (lz = true ∧ r.2.getD j 0 = 0 ∧ ds[j] = []) ∨
+      (1 ≤ r.2.getD j 0 ∧
+        entryAt packs (entryAddress (if lz then 16 else 0) (r.2.getD j 0)).1
+            (entryAddress (if lz then 16 else 0) (r.2.getD j 0)).2 = some ds[j] ∧
+        (lz = false → entryAt packs 0 0 = some [Ragc.Agc3.placeholder])) := by
+  obtain ⟨suffix, hinv, hall, _, hids⟩ := assignAll_spec lz ds PState.init (inv_init lz)
+  rw [hr] at hinv hall hids
+  obtain ⟨hfilled, hflat⟩ := finish_spec lz r.1 hinv
+  rw [hpk] at hfilled hflat
+  refine ⟨hfilled, fun p hp => filled_nonfinal 50 packs p hfilled hp, ?_⟩
+  intro j hj
+  have hidj := hids j hj
+  generalize r.2.getD j 0 = id at hidj ⊢
+  rcases hidj with h0 | ⟨h1, h2, h3⟩
+  · exact Or.inl h0
+  · right
+    refine ⟨h1, ?_⟩
+    generalize hA : allEntries lz r.1 = A at *
+    -- the position of the entry in the stream
+    have hlt : id - off lz < A.length := by
+      apply Classical.byContradiction
+      intro hc
+      rw [List.getElem?_eq_none (by omega)] at h3
+      cases h3
+    -- the packs hold the whole entry stream: an id ≥ 1 was handed out, so something was written
+    have hfl : packs.flatten = A := by
+      apply hflat
+      intro hw
+      have hnext := hinv.next
+      rw [hw, hA] at hnext
+      cases lz with
+      | true => simp only [off, if_true] at hnext hlt; omega
+      | false => simp only [off, Bool.false_eq_true, if_false, Nat.add_zero] at hnext hlt h2; omega
+    have haddr : (entryAddress (if lz then 16 else 0) id) = ((id - off lz) / 50, (id - off lz) % 50) := by
+      cases lz <;> simp [entryAddress, noRawGroups, packCard, off]
+    rw [haddr, entryAt_eq, filled_index 50 (by omega) packs _ hfilled (by rw [hfl]; exact hlt), hfl]
+    refine ⟨h3, ?_⟩
+    intro hlz
+    subst hlz
+    have h00 : (0 : Nat) / 50 = 0 ∧ (0 : Nat) % 50 = 0 := by decide
+    have := filled_index 50 (by omega) packs 0 hfilled (by rw [hfl]; omega)
+    rw [h00.1, h00.2] at this
+    rw [entryAt_eq, this, hfl, hall]
+    simp [allEntries, PState.init, pre, placeholderEntry, placeholder]
+
+
 end Ragc.Packs
